@@ -7,8 +7,8 @@ Bounded exhaustive enumeration on the real `abacusnbody.data.pipe_asdf.unpack_to
   file set : 1..3 real ASDF files with the given row counts (0 rows included), written under /dev/shm
   compress : none | zlib | blsc | mix (file i uses none/zlib/blsc in rotation); the block headers of the written
              files are parsed to confirm the compression label really is in the file
-  fields   : every ordered list of 1..3 distinct columns out of 5 (85 lists); thorough: also the lists with
-             repeated columns (155) on the uncompressed and mixed file sets, and the empty list
+  fields   : every ordered list of 1..3 distinct columns out of 5 (85 lists); the lists with repeated columns (155)
+             on the uncompressed S0 file sets (thorough: on all uncompressed and mixed file sets, and the empty list)
   mode     : rec (in-memory recording pipe), ospipe (a real OS pipe drained by a thread through a BufferedWriter,
              like sys.stdout.buffer), cli (`python -m abacusnbody.data.pipe_asdf` in a subprocess, subset)
   errors   : a missing path / a directory at every position of the file list; a field that exists in no file at
@@ -113,7 +113,7 @@ def _cases(tier, seed):
                     if not thorough and mode == 'ospipe' and si != (ri + seed) % 2:
                         continue
                     # thorough: lists with repeated fields (155 instead of 85) on uncompressed and mixed file sets
-                    rep = thorough and mode == 'rec' and comp in ('none', 'mix')
+                    rep = mode == 'rec' and (comp in ('none', 'mix') if thorough else (comp == 'none' and si == 0))     # (quick: uncompressed S0 only)
                     for first in range(5):
                         yield dict(kind='ok', schema=s, rows=list(rows), comp=comp, mode=mode, first=first, repeats=rep)
     if thorough:
